@@ -216,7 +216,68 @@ theorem C17_nothing_for_failed_request (db : Db) (req : WriteReq) (offset : Int)
       | error e => simp [h3]
       | ok p3 => obtain ⟨b3, ranges⟩ := p3; simp [h3] at h
 
-theorem C17_on_tree : Facts.processWriteSingleBatchCommit = true := by decide
+/-! ### trimming -/
+
+/-- the offset the trimmer's binary search returns holds an expired batch (if the first one is expired) -/
+theorem trimSearch_expired (db : Db) (cutoff : Int) (fuel : Nat) (lo hi t : Int)
+    (hlo : ∃ b, batchAt db lo = some b ∧ (b.timestamp : Int) ≤ cutoff)
+    (h : trimSearch db cutoff fuel lo hi = some t) :
+    ∃ b, batchAt db t = some b ∧ (b.timestamp : Int) ≤ cutoff := by
+  induction fuel generalizing lo hi with
+  | zero => simp [trimSearch] at h; subst h; exact hlo
+  | succ f ih =>
+    unfold trimSearch at h
+    split at h
+    · simp only at h
+      cases hb : batchAt db ((lo + hi) / 2 + (if (lo + hi) % 2 > 0 then 1 else 0)) with
+      | none => rw [hb] at h; simp at h
+      | some b =>
+        rw [hb] at h
+        simp only at h
+        split at h
+        · exact ih _ _ hlo h
+        · rename_i hexp
+          exact ih _ _ ⟨b, hb, by omega⟩ h
+    · simp at h; subst h; exact hlo
+
+/-- **trimming only removes notification batches of a key range that ends right after an expired
+    batch**: every other key of the store is kept, and the store only shrinks -/
+theorem C17_trim_retention (db : Db) (now retention : Int) :
+    (∀ p ∈ (trimNotifications true db now retention).store, p ∈ db.store) ∧
+    (∀ p ∈ db.store, p ∉ (trimNotifications true db now retention).store →
+      ∃ f t, (notifBatches db).head? = some f ∧ (now - retention ≥ (f.timestamp : Int)) ∧
+        trimSearch db (now - retention) (((notifBatches db).getLast?.map (·.offset)).getD 0 - f.offset + 1).toNat f.offset
+          (((notifBatches db).getLast?.map (·.offset)).getD 0) = some t ∧
+        inBatchRange (notificationKey f.offset) (notificationKey (t + 1)) p.1 = true) := by
+  unfold trimNotifications
+  cases hf : (notifBatches db).head? with
+  | none => exact ⟨fun p hp => hp, fun p hp hn => absurd hp hn⟩
+  | some f =>
+    cases hl : (notifBatches db).getLast? with
+    | none => exact ⟨fun p hp => hp, fun p hp hn => absurd hp hn⟩
+    | some l =>
+      simp only
+      split
+      · exact ⟨fun p hp => hp, fun p hp hn => absurd hp hn⟩
+      · rename_i hcut
+        cases ht : trimSearch db (now - retention) (l.offset - f.offset + 1).toNat f.offset l.offset with
+        | none => exact ⟨fun p hp => hp, fun p hp hn => absurd hp hn⟩
+        | some t =>
+          simp only [if_true]
+          refine ⟨fun p hp => (List.mem_filter.1 hp).1, ?_⟩
+          intro p hp hnot
+          refine ⟨f, t, rfl, by omega, by simpa using ht, ?_⟩
+          cases hc : inBatchRange (notificationKey f.offset) (notificationKey (t + 1)) p.1 with
+          | true => rfl
+          | false =>
+            exfalso
+            apply hnot
+            simp only [List.mem_filter]
+            exact ⟨hp, by simp [hc]⟩
+
+/-- facts read from the source on every run -/
+theorem C17_on_tree : Facts.processWriteSingleBatchCommit = true ∧
+    Facts.notificationsTrimUpperBoundIsTrimOffsetPlusOne = true ∧ Facts.notificationsStartAtCommitOffset = true := by decide
 
 -- non-vacuity
 example : Sorted (Db.empty.store) ∧ Db.empty.notificationsEnabled = true := ⟨List.Pairwise.nil, rfl⟩
